@@ -12,7 +12,7 @@ PROPS["C05"] = {
              "non-canonical/wrong-length decoder input; distinct = FNV-64 of the serialised case"),
     "assumptions": ["math/big is correct", "verifref.L transcribed from RFC 8032 (checked by verifref self-test)"],
     "units": [{
-        "pkg": "curve/scalar", "configs": {"quick": ["default", "force32bit", "386"], "thorough": ["default", "purego", "force32bit", "386"]},
+        "pkg": "curve/scalar", "configs": {"quick": ["default", "force32bit", "386", "386x64"], "thorough": ["default", "purego", "force32bit", "386", "386x64"]},
         "tests": {
             "TestC05Arith": T(160000, 4000000),
             "TestC05Decode": T(160000, 4000000),
